@@ -264,6 +264,10 @@ UNDECIDABLE_SEEDS = {
     "C02-k2": "columns 10 / 11 recomputed from the CIGAR by a new helper (M counted as match)",
     "C12-k1": "common prefix / suffix stripped before the aligner is called, in a new helper",
     "C18-k1": "a second ordering routine for unbranched components next to decompose_and_order",
+    # lifecycle seeds of round 11 that remove the construct the rule reads its evidence from (answered exit 2, see DESIGN 5.2)
+    "C07-j2": "one reader handle per chromosome file shared by the S pass and the L pass of the concatenation",
+    "C10-j2": "the index offset carried in a local across the records instead of tell() before each write",
+    "C10-j3": "offsets collected in a list and zipped with a lazily filtered record list after the loop",
 }
 
 
